@@ -305,8 +305,11 @@ class AstToSqlVisitor(visitor.NodeVisitor):
 
     def sqlfunc_concat(self, *args: ast._Node) -> str:
         ":meta private:"
-        args_sql = [self.visit(arg) for arg in args]
-        return f"{args_sql[0]} || {args_sql[1]}"
+        # `||` is left-associative: a nested concatenation on the right keeps its
+        # grouping only between parentheses.
+        left = self._visit_operand(args[0], _PREC_ADDITIVE)
+        right = self._visit_operand(args[1], _PREC_ADDITIVE, or_equal=True)
+        return f"{left} || {right}"
 
     def _to_pattern(self, arg: ast._Node, prefix: str = "", suffix: str = "") -> str:
         """
